@@ -292,6 +292,12 @@ func buildTree(root string, entries []any) error {
 			if fi, err := os.Stat(filepath.Join(filepath.Dir(full), nm)); err == nil && fi.IsDir() {
 				typ, cr = "fldr", "n/a "
 			}
+			if ty := bytesOf(e.m["ty"]); len(ty) == 4 { // the world plants a fork with this stored type
+				typ = string(ty)
+				if typ == "PDF " {
+					cr = "CARO"
+				}
+			}
 			if err := os.WriteFile(full, infoFork([]byte(nm), typ, cr, cm), 0644); err != nil {
 				return err
 			}
@@ -351,6 +357,7 @@ func newSandbox(world map[string]any, canaries bool) (*sandbox, error) {
 		mk(filepath.Join(d, "outside", "secret.txt"), body)
 		mk(filepath.Join(d, "outside", Marker+"-name.txt"), body)
 		mk(filepath.Join(d, "root-evil", "x"), body)
+		mk(filepath.Join(d, "root.bak", "keep"), body) // siblings sharing a name prefix with the root ...
 		mk(filepath.Join(d, Marker+".top"), body)
 		// what the fork / partial-data side files of the root folder itself would be called
 		mk(filepath.Join(d, ".info_root"), infoFork([]byte("root"), "TEXT", "TTXT", []byte("comment "+Marker)))
@@ -359,6 +366,8 @@ func newSandbox(world map[string]any, canaries bool) (*sandbox, error) {
 		// next to Users/
 		mk(filepath.Join(d, "config", "secret.yaml"), body)
 		mk(filepath.Join(d, "config", "Users-evil", "z.yaml"), body)
+		mk(filepath.Join(d, "config", "Users-x", "keep"), body) // ... and with the accounts directory
+		mk(filepath.Join(d, "config", "Users.bak", "admin.yaml"), body)
 		// above the sandbox
 		mk(filepath.Join("l1", "l2", "l3", Marker+".up"), body)
 	}
@@ -368,12 +377,13 @@ func newSandbox(world map[string]any, canaries bool) (*sandbox, error) {
 // ---- snapshots ---------------------------------------------------------------------------------------------------
 
 type node struct {
-	P []string // components below the snapshot base; the sandbox's random directory name is replaced by "W"
-	K string
-	S int64
-	H string
-	T string // link target
-	C int    // comment length stored in an information-fork side file (.info_*), parsed from the file
+	P  []string // components below the snapshot base; the sandbox's random directory name is replaced by "W"
+	K  string
+	S  int64
+	H  string
+	T  string // link target
+	C  int    // comment length stored in an information-fork side file (.info_*), parsed from the file
+	Ty []byte // type code stored in such a file
 }
 
 func (s *sandbox) snapshotAt(dir string, prefix []string) ([]node, error) {
@@ -391,24 +401,24 @@ func (s *sandbox) snapshotAt(dir string, prefix []string) ([]node, error) {
 		}
 		nd := node{P: p, K: e.Kind, S: e.Size, H: e.Hash, T: e.Target}
 		if e.Kind == "file" && strings.HasPrefix(filepath.Base(e.Path), ".info_") {
-			nd.C = commentLen(filepath.Join(dir, e.Path))
+			nd.C, nd.Ty = forkFacts(filepath.Join(dir, e.Path))
 		}
 		out = append(out, nd)
 	}
 	return out, nil
 }
 
-// commentLen reads the comment length out of an information fork file (0 if the file is not one).
-func commentLen(path string) int {
+// forkFacts reads the comment length and the type code out of an information fork file (0, nil if it is not one).
+func forkFacts(path string) (int, []byte) {
 	b, err := os.ReadFile(path)
 	if err != nil || len(b) < 74 {
-		return 0
+		return 0, nil
 	}
 	nl := int(b[70])<<8 | int(b[71])
 	if len(b) < 72+nl+2 {
-		return 0
+		return 0, append([]byte(nil), b[4:8]...)
 	}
-	return int(b[72+nl])<<8 | int(b[73+nl])
+	return int(b[72+nl])<<8 | int(b[73+nl]), append([]byte(nil), b[4:8]...)
 }
 
 func (s *sandbox) snapshotOuter() ([]node, error) { return s.snapshotAt(s.outer, nil) }
@@ -439,9 +449,10 @@ func toB(p []string) [][]byte {
 }
 
 func (s *sandbox) nodeJSON(n node, base string, prefix []string) map[string]any {
-	m := map[string]any{"p": compsJSON(toB(n.P)), "k": n.K, "s": n.S, "t": [][]int{}, "c": 0}
+	m := map[string]any{"p": compsJSON(toB(n.P)), "k": n.K, "s": n.S, "t": [][]int{}, "c": 0, "ty": []int{}}
 	if n.K == "file" && strings.HasPrefix(n.P[len(n.P)-1], ".info_") {
 		m["c"] = n.C
+		m["ty"] = ints(n.Ty)
 	}
 	if n.K == "link" {
 		m["t"] = s.relTarget(n.T, base, prefix)
